@@ -751,7 +751,7 @@ theorem maybePromote_plain_func (fl : Flags) (pk : CompKind) (ocs : List (Key ×
     maybePromote fl pk ocs (.comp sf sk cs') =
       match adoptAll sf sk ocs [] with
       | .error e => .error e
-      | .ok cs => .ok (.comp fl sk cs, false) := by
+      | .ok cs => .ok (.comp (promotedFlags fl sf) sk cs, false) := by
   rcases h2 with rfl | rfl <;> cases sk <;> simp [CompKind.isFunc] at h1 <;>
     simp [maybePromote, CompKind.sameClass, CompKind.strictSub, CompKind.isPlain] <;> rfl
 
@@ -790,7 +790,7 @@ theorem compMerge_func_plain (rec : Node → Node → Except Err (Node × Bool))
           | none =>
             match adoptAll sf sk ocs [] with
             | .error e => .error e
-            | .ok cs => .ok (propagate (.comp (replaceOtherFlags of sf) sk cs), true)
+            | .ok cs => .ok (propagate (.comp (promotedFlags (replaceOtherFlags of sf) sf) sk cs), true)
         else
           match mergeLoop rec sf sk r.2 r.1.children ocs with
           | .error e => .error e
